@@ -18,32 +18,5 @@ size_t wcslen(const wchar_t *s) {
 	while (s[n] != 0) n++;
 	return n;
 }
-# if defined(VSTUB_MEMCPY) && VSTUB_MEMCPY == 2
-/* check-only memcpy: asserts that the whole destination slice is writable and the whole source slice readable and
- * copies nothing (sound for callers that never read the destination back - uriToStringEngine does not; DESIGN C05) */
-void *memcpy(void *dst, const void *src, size_t n) {
-	__CPROVER_assert(n == 0 || __CPROVER_w_ok(dst, n), "memcpy: destination slice writable (no write beyond the buffer)");
-	__CPROVER_assert(n == 0 || __CPROVER_r_ok(src, n), "memcpy: source slice readable");
-	return dst;
-}
-# elif defined(VSTUB_MEMCPY)
-/* element-wise memcpy (CBMC's built-in model is expensive for symbolic sizes).  Every memcpy in the library copies
- * whole objects or whole characters, so the size must be a multiple of the element size: V_MEMCPY_ELEM (default: the
- * character type of the pass); a size that is not (e.g. `n` instead of `n * sizeof(URI_CHAR)`) fails the assertion.
- * bound: memcpy.* in the unwindset */
-#  ifndef V_MEMCPY_ELEM
-#   ifdef VW
-#    define V_MEMCPY_ELEM wchar_t
-#   else
-#    define V_MEMCPY_ELEM char
-#   endif
-#  endif
-void *memcpy(void *dst, const void *src, size_t n) {
-	size_t i;
-	__CPROVER_assert(n % sizeof(V_MEMCPY_ELEM) == 0, "memcpy: size is a whole number of elements");
-	for (i = 0; i < n / sizeof(V_MEMCPY_ELEM); i++) ((V_MEMCPY_ELEM *)dst)[i] = ((const V_MEMCPY_ELEM *)src)[i];
-	return dst;
-}
-# endif
 #endif
 #endif
